@@ -31,6 +31,7 @@ class Report:
         self.transitions = 0  # individual real API / codec calls
         self.cases = 0  # cases enumerated
         self.nontrivial = set()  # hashes of distinct non-trivial case keys
+        self.nontrivial_count = 0  # distinct keys of completed shards (shards are disjoint by construction: keys carry the shard's label)
         self.nontrivial_overflow = 0
         self.outcomes = {}  # label -> count (to expose vacuous exploration)
         self.violations = {}  # sig -> [Violation]
@@ -82,6 +83,7 @@ class Report:
         self.transitions += other.transitions
         self.cases += other.cases
         self.nontrivial |= other.nontrivial
+        self.nontrivial_count += other.nontrivial_count
         self.nontrivial_overflow += other.nontrivial_overflow
         for k, v in other.outcomes.items():
             self.outcomes[k] = self.outcomes.get(k, 0) + v
@@ -109,7 +111,13 @@ class Report:
     @property
     def distinct_nontrivial(self):
         # overflowed cases are not counted (conservative)
-        return len(self.nontrivial)
+        return self.nontrivial_count + len(self.nontrivial)
+
+    def compact(self):
+        """End of a shard: keep the number of distinct keys, drop the hashes (saves memory in the parent)."""
+        self.nontrivial_count += len(self.nontrivial)
+        self.nontrivial = set()
+        return self
 
 
 def jsonable(o):
